@@ -291,7 +291,8 @@ let dot_tokens (h : hp) (l : n dotstmt list) (ga : int) (na : int) (ea : int) : 
     | EdgeStmt (u, v, e, a) ->
         if not a then Printf.sprintf "E:%s>%s" (key_str h u) (key_str h v)
         else Printf.sprintf "E:%s>%s:[w=\"%d\"]" (key_str h u) (key_str h v) (int_of_n e) in
-  String.concat " " (List.map tok l)
+  (* the document is `digraph {` ... `}`: the harness reports the opening and the closing line as tokens too *)
+  String.concat " " ("OPEN" :: List.map tok l @ ["CLOSE"])
 
 let cmp_name (c : comparison) : string = match c with Lt -> "Less" | Eq -> "Equal" | Gt -> "Greater"
 
